@@ -84,6 +84,20 @@ Checks that were strengthened because a seeded change (or the triage of one) sho
   closed twice, hitting another connection's file) - extracted files are hashed into the dump, two C19 profiles extract uploads
   to disk, and the harness keeps descriptor accounting (`mkstemp`/`close` renamed like the allocator: closing a descriptor the
   library does not hold, or leaking one, is a C01 verdict).
+* **Round 6** (19 more; 8 not caught at first): **C02-6** (a second interim 100 treated as the final response) - the grammar now
+  emits one to three interim 100s and C02 uses them; **C03-6** (the never-implemented soft field limit "implemented" in the
+  buffering helpers, so a flag depends on whether a line was buffered) - a quarter of the C03 cases set a soft limit below
+  ordinary line lengths; **C05-6** (last raw trailer/header data delivered after REQUEST_COMPLETE) - a well-formed slice in which
+  the raw data hooks are held to the protocol order too (on hostile input the unchanged parser delivers trailer data late when a
+  stream is cut off, which is why the hostile workload only requires them not to follow TRANSACTION_COMPLETE); **C07-6** (every
+  layer after the first built with the first layer's coding) - two-coding lists with LZMA, coded in the order the parser applies
+  its decoders; **C08-6** (a `bstr_chr` per continuation line when the folded header has no colon) - colon-less folded headers
+  and trailers, folds directly after the start line, both directions; **C13-6** (port narrowed to `int` before the range test) -
+  directed port texts around 2^16, 2^31, 2^32, k*2^32+p, 2^63, 2^64; **C16-6** (request-side gap after an accepted CONNECT
+  completes the request and resumes HTTP parsing) - gaps in the tunnelled request stream; **C19-6** (chunk-size parser stores a
+  NUL into the caller's `const` input and restores it) - all stream bytes handed to the library now live in a read-only mapping,
+  so a store into the input faults under every check. Two more reporting flaws surfaced: a crash of a whole `hx conc` process
+  made C19 stop as inconclusive before the crash was reported; `./check` now reports violations found before a run has to stop.
 * **C08-1/2, C19-1/2** were the acceptance tests of the two checks built last; C19-1 (a process-wide decompression buffer) is
   invisible to ThreadSanitizer because zlib does the writes, and is caught by the solo-vs-shared dump comparison under baton
   interleavings; C19-2 (self-organising best-fit map) is caught by the deep configuration hash and by TSan.
